@@ -68,26 +68,84 @@ def verify_contract(target, timeout_ms=5000, retry=True):
     return res
 
 
+EXTERNAL = [
+    ("z3-5.1-cli", ["z3-new", "-smt2", "-T:{t}", "{f}"]),
+    ("z3-5.1-cli-seed7", ["z3-new", "-smt2", "-T:{t}", "smt.random_seed=7", "{f}"]),
+    ("z3-4.8-cli", ["/usr/bin/z3", "-smt2", "-T:{t}", "{f}"]),
+    ("cvc5-1.0", ["/usr/bin/cvc5", "--tlimit={tms}", "--strings-exp", "--lang=smt2", "{f}"]),
+]
+
+
+def external_check(smt2, seconds):
+    """Re-pose the VC (SMT-LIB 2 dump of the same solver state) to fresh solver processes. z3's quantifier
+    instantiation depends on the history of its context, so a fresh process often decides what the API left unknown."""
+    import os
+    import subprocess
+    import tempfile
+    fd, path = tempfile.mkstemp(suffix=".smt2", prefix="pyvc_")
+    try:
+        with os.fdopen(fd, "w") as f:
+            f.write(smt2)
+        procs = []
+        for name, cmd in EXTERNAL:
+            argv = [c.format(t=seconds, tms=seconds * 1000, f=path) for c in cmd]
+            try:
+                procs.append((name, subprocess.Popen(argv, stdout=subprocess.PIPE, stderr=subprocess.DEVNULL, text=True)))
+            except FileNotFoundError:
+                continue
+        deadline = time.time() + seconds + 10
+        answer = ("unknown", None)
+        pending = list(procs)
+        while pending and time.time() < deadline:
+            for name, p in list(pending):
+                if p.poll() is not None:
+                    pending.remove((name, p))
+                    out = (p.stdout.read() or "").strip().splitlines()
+                    ans = out[0].strip() if out else ""
+                    if ans in ("unsat", "sat"):
+                        answer = (ans, name)
+                        pending = []
+                        break
+            else:
+                time.sleep(0.05)
+        for name, p in procs:
+            if p.poll() is None:
+                p.kill()
+            try:
+                p.wait(timeout=5)
+            except Exception:
+                pass
+        return answer
+        return "unknown", None
+    finally:
+        try:
+            os.remove(path)
+        except OSError:
+            pass
+
+
 def solve_one(ip, ob, timeout_ms, retry):
-    r, ms, model, reason, _ = ip.prover.check(ob.hyps, ob.goal)
+    r, ms, model, reason, s = ip.prover.check(ob.hyps, ob.goal)
     solver = "z3-%s" % z3.get_version_string()
     if r == "unknown" and retry:
-        # z3's quantifier instantiation is sensitive to term order: retry with other seeds, then more time
-        for seed, tmo in ((1, timeout_ms), (2, timeout_ms), (3, timeout_ms * 3)):
-            z3.set_param("smt.random_seed", seed)
-            try:
-                r2, ms2, model2, reason2, _ = ip.prover.check(ob.hyps, ob.goal, timeout_ms=tmo)
-            finally:
-                z3.set_param("smt.random_seed", 0)
-            ms += ms2
-            if r2 != "unknown":
-                r, model, reason = r2, model2, reason2
-                break
+        t0 = time.time()
+        try:
+            smt2 = s.to_smt2()
+        except Exception:
+            smt2 = None
+        if smt2:
+            ans, name = external_check(smt2, max(10, timeout_ms // 500))
+            if ans == "unsat":
+                r, solver = "unsat", name
+            elif ans == "sat":
+                # a model from a fresh process is not replayable through the API: recorded as refuted-without-model
+                r, solver, reason = "sat", name, "sat reported by " + name
+        ms += int((time.time() - t0) * 1000)
     status = {"unsat": "discharged", "sat": "refuted", "unknown": "unknown"}[r]
     rec = {"name": ob.name, "line": ob.line, "status": status, "ms": ms, "solver": solver,
            "path": "".join("T" if d else "F" for d in ob.path), "clause": ob.clause}
     if status == "refuted":
-        rec["model"] = model_summary(model)
+        rec["model"] = model_summary(model) if model is not None else {"note": reason}
     if status == "unknown":
         rec["reason"] = reason
     return rec
